@@ -868,7 +868,6 @@ class Module(HasAccessibles):
             min_, max_ = getattr(self, pname + '_limits')
             if not min_ <= value <= max_:
                 raise RangeError(f'{pname} outside {pname}_limits')
-            return
         except AttributeError:
             pass
         min_ = getattr(self, pname + '_min', float('-inf'))
